@@ -1,5 +1,6 @@
 // ===================================================================================================
-// merge!(members..): contract template, profile R (members greet inside the subscribing call).
+// merge!(members..): contract template.  Members greet inside the subscribing call or LATER, at top level, in
+// any order (LATE environment); a member that greets after the output is over is told to stop and not counted.
 // Handler bodies are extracted from /repo/src/merge.rs: subscription closure (with its loop), sink
 // talkback (broadcast loop) and the member handler (with its sibling-disposal loop).
 // ===================================================================================================
@@ -17,6 +18,7 @@ pub struct G<T> {
     pub ups: Seq<UpLink<T>>,
     pub greeted: Seq<bool>,     // member i has greeted        (changes only when member i greets)
     pub completed: Seq<bool>,   // member i has completed      (changes only when member i completes)
+    pub turned: Seq<bool>,      // member i greeted after the output was over and was told to stop at once (it is not counted)
     pub arr: Seq<T>,            // every datum of every member, in arrival order
 }
 pub struct Cap { pub n: usize, pub pullable: bool }
@@ -64,7 +66,7 @@ impl CellRef_source_talkbacks {
 
 pub open spec fn cap_ok(c: Cap) -> bool { !c.pullable }
 pub open spec fn g_init<T>(c: Cap) -> G<T> {
-    G { dn: dn_init(), ups: Seq::new(c.n as nat, |j: int| up_init::<T>()), greeted: Seq::new(c.n as nat, |j: int| false), completed: Seq::new(c.n as nat, |j: int| false), arr: Seq::empty() }
+    G { dn: dn_init(), ups: Seq::new(c.n as nat, |j: int| up_init::<T>()), greeted: Seq::new(c.n as nat, |j: int| false), completed: Seq::new(c.n as nat, |j: int| false), turned: Seq::new(c.n as nat, |j: int| false), arr: Seq::empty() }
 }
 pub open spec fn none_alloc(h: Heap) -> bool { !h.alloc_source_talkbacks && !h.alloc_start_count && !h.alloc_end_count && !h.alloc_ended }
 pub open spec fn all_alloc(h: Heap) -> bool { h.alloc_source_talkbacks && h.alloc_start_count && h.alloc_end_count && h.alloc_ended }
@@ -133,14 +135,15 @@ pub proof fn lemma_count_zero(n: nat)
 //@invpart fwd @C05 a member's error reaches the sink unchanged
 pub open spec fn inv_safe<T>(h: Heap, g: G<T>, c: Cap) -> bool {
     &&& cap_ok(c)
-    &&& g.ups.len() == c.n && g.greeted.len() == c.n && g.completed.len() == c.n && h.source_talkbacks@.len() == c.n
+    &&& g.ups.len() == c.n && g.greeted.len() == c.n && g.completed.len() == c.n && g.turned.len() == c.n && h.source_talkbacks@.len() == c.n
     &&& (forall|i: int| 0 <= i < c.n && g.ups[i].phase == Up::Live ==> (#[trigger] h.source_talkbacks@[i]) == Some(UpTb { i: i as usize }))
     &&& (forall|i: int| 0 <= i < c.n && (#[trigger] h.source_talkbacks@[i]) is Some ==> h.source_talkbacks@[i] == Some(UpTb { i: i as usize }))
 }
 pub open spec fn inv_cnt<T>(h: Heap, g: G<T>, c: Cap) -> bool {
     &&& h.start_count == count_true(g.greeted)
     &&& h.end_count == count_true(g.completed)
-    &&& (forall|i: int| #![trigger g.greeted[i]] #![trigger g.ups[i]] 0 <= i < c.n ==> g.greeted[i] == up_greeted(g.ups[i].phase))
+    &&& (forall|i: int| #![trigger g.greeted[i]] #![trigger g.ups[i]] 0 <= i < c.n ==> g.greeted[i] == (up_greeted(g.ups[i].phase) && !g.turned[i]))
+    &&& (forall|i: int| #![trigger g.turned[i]] #![trigger g.ups[i]] 0 <= i < c.n && g.turned[i] ==> g.ups[i].phase == Up::EndedByUs && h.source_talkbacks@[i] is None)
     &&& (forall|i: int| #![trigger g.completed[i]] #![trigger g.ups[i]] 0 <= i < c.n ==> g.completed[i] == (g.ups[i].phase == Up::EndedBySelf))
     // consequences of the counts that the handlers rely on (re-established from the count lemmas at handler entry)
     &&& h.start_count <= c.n && h.end_count <= c.n
@@ -179,15 +182,15 @@ pub open spec fn mono<T>(a: Heap, ga: G<T>, b: Heap, gb: G<T>) -> bool {
     &&& (a.ended ==> b.ended)
     &&& (all_alloc(a) ==> all_alloc(b))
 }
-pub open spec fn sink_rel<T>(a: Heap, ga: G<T>, b: Heap, gb: G<T>, c: Cap) -> bool { quiet(gb) && untouched_rel(ga, gb) }
-pub open spec fn up_rel<T>(i: int, a: Heap, ga: G<T>, b: Heap, gb: G<T>, c: Cap) -> bool { (quiet(ga) ==> quiet(gb)) && untouched_rel(ga, gb) }
+pub open spec fn sink_rel<T>(a: Heap, ga: G<T>, b: Heap, gb: G<T>, c: Cap) -> bool { true && untouched_rel(ga, gb) }
+pub open spec fn up_rel<T>(i: int, a: Heap, ga: G<T>, b: Heap, gb: G<T>, c: Cap) -> bool { (true ==> true) && untouched_rel(ga, gb) }
 pub open spec fn sub_rel<T>(i: int, a: Heap, ga: G<T>, b: Heap, gb: G<T>, c: Cap) -> bool { untouched_rel(ga, gb) }
 /// members that have not been subscribed yet stay untouched whatever the peers do
 pub open spec fn untouched_rel<T>(ga: G<T>, gb: G<T>) -> bool {
     forall|j: int| #![trigger ga.ups[j]] #![trigger gb.ups[j]] 0 <= j < ga.ups.len() && j < gb.ups.len() && ga.ups[j] == up_init::<T>() ==> gb.ups[j] == up_init::<T>()
 }
 pub open spec fn sub_pre<T>(i: int, h: Heap, g: G<T>, c: Cap, m: Message<Never, Tok_source_talkback>) -> bool {
-    forall|j: int| 0 <= j < g.ups.len() && j != i ==> (#[trigger] g.ups[j]).phase != Up::Subscribing
+    true // (late greeters: other members may be pending)
 }
 pub open spec fn uptb_gate<T>(s: UpTb, k: int, h: Heap, g: G<T>, c: Cap, m: Message<Never, Never>) -> bool { true }
 pub open spec fn upsrc_gate<T>(s: UpSrc, k: int, h: Heap, g: G<T>, c: Cap, m: Message<Never, Tok_source_talkback>) -> bool {
@@ -196,8 +199,8 @@ pub open spec fn upsrc_gate<T>(s: UpSrc, k: int, h: Heap, g: G<T>, c: Cap, m: Me
 pub open spec fn all_completed<T>(g: G<T>) -> bool { forall|j: int| 0 <= j < g.ups.len() ==> (#[trigger] g.ups[j]).phase == Up::EndedBySelf }
 pub open spec fn none_live<T>(g: G<T>) -> bool { forall|j: int| 0 <= j < g.ups.len() ==> (#[trigger] g.ups[j]).phase != Up::Live }
 
-//@include env_dn.rs OP=merge TP=T G=G<T> GNAME=G HEAP=Heap O=T ORPHAN="none_live(g)" QUIET="quiet(g)" LITE=false SINKGATE="k == $GATE_MERGE_DONE ==> (m is Terminate ==> all_completed(g))"
-//@include env_upn.rs OP=merge TP=T G=G<T> GNAME=G HEAP=Heap I=T LITE=false LATE=false
+//@include env_dn.rs OP=merge TP=T G=G<T> GNAME=G HEAP=Heap O=T ORPHAN="none_live(g)" QUIET=true LITE=false SINKGATE="k == $GATE_MERGE_DONE ==> (m is Terminate ==> all_completed(g))"
+//@include env_upn.rs OP=merge TP=T G=G<T> GNAME=G HEAP=Heap I=T LITE=false LATE=true
 
 #[verifier::exec_allows_no_decreases_clause]
 #[verifier::loop_isolation(false)]
@@ -207,7 +210,7 @@ pub fn merge__subscribe<T>(h: &mut Heap, g: &mut Ghost<G<T>>, c: &Cap, message: 
         none_alloc(*old(h)),
     ensures
         INV!(*final(h), final(g)@, *c),
-        quiet(final(g)@),
+        true,
         all_alloc(*final(h)), /* @C13 every cell is allocated per subscription */
 {
     let sources = Sources { n: c.n };
@@ -217,7 +220,7 @@ pub fn merge__subscribe<T>(h: &mut Heap, g: &mut Ghost<G<T>>, c: &Cap, message: 
 INVARIANT!("merge", 0) {
     invariant
         INV!(*h, g@, *c),
-        quiet(g@), all_alloc(*h), n == c.n, sources.n == c.n, source_talkbacks.n == c.n,
+        true, all_alloc(*h), n == c.n, sources.n == c.n, source_talkbacks.n == c.n,
         forall|j: int| i <= j < c.n ==> (#[trigger] g@.ups[j]) == up_init::<T>(),
 }
 
@@ -227,7 +230,7 @@ INVARIANT!("merge", 0) {
 pub fn merge__sink_talkback<T>(h: &mut Heap, g: &mut Ghost<G<T>>, c: &Cap, message: Message<Never, Never>)
     requires
         INV!(*old(h), old(g)@, *c),
-        quiet(old(g)@),
+        true,
         old(g)@.dn.phase == Dn::Live,
         message is Pull || message is Terminate || message is Error,
     ensures
@@ -247,7 +250,7 @@ pub fn merge__sink_talkback<T>(h: &mut Heap, g: &mut Ghost<G<T>>, c: &Cap, messa
 INVARIANT!("sink_talkback", 0) {
     invariant
         __it0.n == c.n,
-        mono(h0, g0, *h, g@), quiet(g@), untouched_rel(g0, g@),
+        mono(h0, g0, *h, g@), true, untouched_rel(g0, g@),
         message is Pull ==> INV!(*h, g@, *c),
         message is Pull ==> (forall|j: int| 0 <= j < __k0 && g0.ups[j].phase == Up::Live && (#[trigger] g@.ups[j]).phase == Up::Live ==> g@.ups[j].pulls > g0.ups[j].pulls),
         !(message is Pull) ==> disposing(*h, g@, *c, __k0 as int, -1),
@@ -275,13 +278,12 @@ pub fn merge__source_talkback<T>(h: &mut Heap, g: &mut Ghost<G<T>>, c: &Cap, i: 
         INV!(*old(h), old(g)@, *c),
         i < c.n,
         !(message is Pull),
-        message is Handshake ==> !dn_over(old(g)@.dn.phase), // profile R: a member greets inside its subscribing call, which is made only while the output is live
         message is Handshake ==> old(g)@.ups[i as int].phase == Up::Subscribing && message->Handshake_0 == (UpTb { i: i }) && sub_pre(i as int, *old(h), old(g)@, *c, Message::Handshake(Tok_source_talkback { i: i })),
-        !(message is Handshake) ==> old(g)@.ups[i as int].phase == Up::Live && quiet(old(g)@),
+        !(message is Handshake) ==> old(g)@.ups[i as int].phase == Up::Live && true,
     ensures
         INV!(*final(h), final(g)@, *c),
         mono(*old(h), old(g)@, *final(h), final(g)@), /* @C02 phases only move forward */
-        quiet(final(g)@), untouched_rel(set_up(old(g)@, i as int, up_recv(old(g)@.ups[i as int], message)), final(g)@),
+        true, untouched_rel(set_up(old(g)@, i as int, up_recv(old(g)@.ups[i as int], message)), final(g)@),
         message is Handshake ==> final(g)@.dn.phase != Dn::NotGreeted, /* @C08 the sink is greeted when the first member greets */
         message is Error && old(g)@.dn.phase == Dn::Live ==> final(g)@.dn.phase == Dn::EndedByUs && final(g)@.dn.err == Some(message->Error_0) && none_live(final(g)@), /* @C05 a member error reaches the sink once, unchanged; siblings are disposed */
         message is Terminate && all_completed(final(g)@) && old(g)@.dn.phase == Dn::Live ==> final(g)@.dn.phase != Dn::Live, /* @C08 the sink completes when the last member has completed */
@@ -291,12 +293,13 @@ pub fn merge__source_talkback<T>(h: &mut Heap, g: &mut Ghost<G<T>>, c: &Cap, i: 
     proof {
         lemma_count_bounds(g@.greeted); lemma_count_bounds(g@.completed);
         if message is Data { g@ = G { arr: g@.arr.push(message->Data_0), ..g@ }; }
-        if message is Handshake { lemma_count_set(g@.greeted, i as int); g@ = G { greeted: g@.greeted.update(i as int, true), ..g@ }; }
+        if message is Handshake && !h.ended { lemma_count_set(g@.greeted, i as int); g@ = G { greeted: g@.greeted.update(i as int, true), ..g@ }; }
+        if message is Handshake && h.ended { g@ = G { turned: g@.turned.update(i as int, true), ..g@ }; }
         if message is Terminate { lemma_count_set(g@.completed, i as int); g@ = G { completed: g@.completed.update(i as int, true), ..g@ }; }
         g@ = set_up(g@, i as int, up_recv(g@.ups[i as int], message));
         lemma_count_bounds(g@.greeted); lemma_count_bounds(g@.completed);
         assert(forall|j: int| #![trigger g@.completed[j]] #![trigger g@.ups[j]] 0 <= j < c.n ==> g@.completed[j] == (g@.ups[j].phase == Up::EndedBySelf));
-        assert(forall|j: int| #![trigger g@.greeted[j]] #![trigger g@.ups[j]] 0 <= j < c.n ==> g@.greeted[j] == up_greeted(g@.ups[j].phase));
+        assert(forall|j: int| #![trigger g@.greeted[j]] #![trigger g@.ups[j]] 0 <= j < c.n ==> g@.greeted[j] == (up_greeted(g@.ups[j].phase) && !g@.turned[j]));
         lemma_count_all(g@.completed);
     }
     let ghost g1 = g@;
@@ -305,7 +308,7 @@ pub fn merge__source_talkback<T>(h: &mut Heap, g: &mut Ghost<G<T>>, c: &Cap, i: 
 INVARIANT!("source_talkback", 0) {
     invariant
         n == c.n, source_talkbacks.n == c.n, i < c.n,
-        mono(*old(h), old(g)@, *h, g@), quiet(g@), untouched_rel(g1, g@),
+        mono(*old(h), old(g)@, *h, g@), true, untouched_rel(g1, g@),
         disposing(*h, g@, *c, j as int, i as int),
         g@.dn == g1.dn, g@.dn.phase == Dn::Live, g@.ups[i as int] == g1.ups[i as int],
 }
@@ -321,11 +324,17 @@ pub fn world<T>(c: &Cap)
     loop
         invariant
             INV!(h, g@, *c),
-            quiet(g@),
+            true,
     {
         if nondet_bool() {
             let j = nondet_usize();
-            if j < c.n { up_events_of(j, &mut h, &mut g, c); }
+            if j < c.n {
+                let ghost pending = g@.ups[j as int].phase == Up::Subscribing;
+                if ghost_test(Ghost(pending)) {
+                    merge__source_talkback(&mut h, &mut g, c, j, Message::Handshake(UpTb { i: j }));   // a late greeting
+                }
+                up_events_of(j, &mut h, &mut g, c);
+            }
         } else if ghost_test(Ghost(g@.dn.phase == Dn::Live)) {
             if nondet_bool() { merge__sink_talkback(&mut h, &mut g, c, Message::Pull); }
             else if nondet_bool() { merge__sink_talkback(&mut h, &mut g, c, Message::Terminate); }
